@@ -218,8 +218,8 @@ template <typename Item, typename Alloc>
 std::vector<typename bag<Item, Alloc>::value_type>
 bag<Item, Alloc>::gather_to_vector(int dest) {
   std::vector<value_type> result;
-  auto                    p_res = m_comm.make_ygm_ptr(result);
   m_comm.barrier();
+  auto                    p_res = m_comm.make_ygm_ptr(result);
   auto gatherer = [](auto res, const std::vector<value_type> &outer_data) {
     res->insert(res->end(), outer_data.begin(), outer_data.end());
   };
@@ -232,8 +232,8 @@ template <typename Item, typename Alloc>
 std::vector<typename bag<Item, Alloc>::value_type>
 bag<Item, Alloc>::gather_to_vector() {
   std::vector<value_type> result;
-  auto                    p_res = m_comm.make_ygm_ptr(result);
   m_comm.barrier();
+  auto                    p_res = m_comm.make_ygm_ptr(result);
   auto result0 = gather_to_vector(0);
   if (m_comm.rank0()) {
     auto distribute = [](auto res, const std::vector<value_type> &data) {
